@@ -34,8 +34,9 @@ CHECKS = {
         "groups": [
             {"pkg": "Havoc/pkg/agent", "with": AGENT_WITH, "entries": ["H_c04_dequeue", "H_c04_history", "H_c04_chunks"], "split": True},
             {"pkg": "Havoc/pkg/agent", "with": AGENT_WITH, "entries": ["H_c04_race"], "race": True},
+            {"pkg": "Havoc/pkg/handlers", "with": ["Havoc/pkg/agent"] + AGENT_WITH, "entries": ["H_c04_checkin"]},
         ],
-        "bounds": "dequeue: queue of 0..4 jobs with 0..2 arguments each, byte arguments of any length up to 2^31 (abstract buffers); history: 1..5 enqueue/check-in operations on two agents; chunks: file size any value in [0, 3*30MB+1]; race: two threads, preemption at every shared load/store and mutex operation, at most 2 voluntary switches.",
+        "bounds": "dequeue: queue of 0..4 jobs with 0..2 arguments each, byte arguments of any length up to 2^31 (abstract buffers); history: 1..5 enqueue/check-in operations on two agents; chunks: file size any value in [0, 3*30MB+1]; race: two threads, preemption at every shared load/store and mutex operation, at most 2 voluntary switches; check-in through the listener: requests of one or two packages (GET_JOB and/or a callback, either order) with one task queued or none.",
         "outside": "more than two threads or two voluntary context switches; service Get path",
         "min_completed": 3,
     },
